@@ -148,6 +148,11 @@ def enumerate_cases(tier: str):
                 yield {"version": version, "line": head + inner + "\n", "stream": True}
                 yield {"version": version, "line": head + inner + "\n", "mqtt": True, "mqtt_repeat": True}
                 yield {"version": version, "line": head + inner + "\n", "mqtt": True, "mqtt_repeat": True, "mqtt_prefix": "mygateway1-out"}
+    # one ill-formed line of every class arriving complete on a byte stream: rejected as an invalid message, like anywhere else
+    for version in ("1.4", "2.2"):
+        for text in ("", "\r", " ", "\t", "  \r", ";", ";;;;;", "1", "1;2", "1;2;3;0;5", "1;2;1;0;", "256;1;1;0;0;x", "1;256;1;0;0;x", "1;1;5;0;0;x", "1;1;1;2;0;x", "a;1;1;0;0;x", "1;1;1;0;x;y",
+                     "1;255;1;0;0;x", "1;1;3;0;0;x", "-1;1;1;0;0;x", "1.0;1;1;0;0;x", "garbage", "\x00", "0;255;3;0;9", "1;1;1;0", "\ufeff"):
+            yield {"version": version, "line": text + "\n", "stream": True}
     # odd-but-int()-parsable spellings of the boundary values in every header field, against every command (cross-field rules use the VALUE)
     for version in ("1.4", "2.2"):
         for spelled in ("0255", "+255", " 255", "255 ", "2_55", "٢٥٥", "00", "+0", "-0", "0254", "+3", "03", "004", "+4", "１", "0x3"):
@@ -355,6 +360,8 @@ def _run_case(case: dict) -> Outcome:
             status, value = got
             if status == "leak":
                 return fail(f"stream-listen-leak:{env.exc_sig(value)}", f"line {line!r} on a byte stream under {version}: {value!r}", classes=classes)
+            if verdict == "reject" and status == "liberr" and not isinstance(value, InvalidMessageError):
+                return fail(f"stream-rejected-otherwise:{type(value).__name__}", f"{line!r} arriving complete on a byte stream under {version} is ill-formed ({rule}); it was turned away with {value!r} instead of InvalidMessageError", classes=classes)
             if verdict == "reject" and status == "ok":
                 return fail(f"stream-accepted-illformed:{rule.split('@')[0]}", f"{line!r} arriving on a byte stream under {version} was accepted as {env.msg_fields(value)}", classes=classes)
             if verdict == "accept" and status == "ok" and None not in ref["values"]:
